@@ -134,11 +134,25 @@ fn direct<'a>(
             let ancestry = ancestry(repo, prev, target)?;
 
             match ancestry {
-                Ancestry::Equal => Ok(RefUpdate::Skipped {
+                Ancestry::Equal if prev == target => Ok(RefUpdate::Skipped {
                     name: name.to_ref_string(),
                     oid: target,
                 }
                 .into()),
+                Ancestry::Equal => {
+                    // N.b. the objects differ, but they peel to the same
+                    // commit, eg. a lightweight tag that was replaced by an
+                    // annotated one. No history is lost by the update, so
+                    // we can safely pass `force: true`.
+                    repo.backend
+                        .reference(name.as_ref(), target.into(), true, "radicle: update")
+                        .map_err(|err| error::Update::Create {
+                            name: name.to_owned(),
+                            target,
+                            err,
+                        })?;
+                    Ok(RefUpdate::from(name.to_ref_string(), prev, target).into())
+                }
                 Ancestry::Ahead => {
                     // N.b. the update is a fast-forward so we can safely
                     // pass `force: true`.
